@@ -120,6 +120,15 @@ def origin(annotation: tp.Any) -> tp.Any:
     if istypealiastype(actual):
         actual = actual.__value__
 
+    # What was beneath a wrapper may be wrapped again (an alias of a `NewType`,
+    #   a `ClassVar` of an alias): look at it anew.
+    if actual is not annotation and (
+        hasattr(actual, "__supertype__")
+        or isclassvartype(actual)
+        or istypealiastype(actual)
+    ):
+        return origin(actual)
+
     actual = tp.get_origin(actual) or actual
 
     # provide defaults for generics
